@@ -74,6 +74,30 @@ def literal_spellings():
     return L
 
 
+def construct_spellings():
+    """constructs that neither the token soups nor mutations of the shipped texts reach reliably:
+    turbofish arities, several unfulfilled forwards, several failing dynamic overloads"""
+    L = []
+    gen = "fn f<T>(a: T)->T { a }\nfn g<T, U>(a: T, b: U)->T { a }\n"
+    for tf in ("$", "$, $", "$, $, $", "int", "int, $", "$, int", "int, int, int", "", "str", "Sequence<$>", "$, Sequence<int>"):
+        for args in ("", "1", "1, 2", "1, 2, 3"):
+            L.append(gen + "let r = f{%s}(%s);" % (tf, args))
+            L.append(gen + "let r = g{%s}(%s);" % (tf, args))
+        L.append(gen + "let r = f{%s};" % tf)
+    for n in (2, 3, 5):
+        fw = "".join("forward fn f%d(n: int)->int;\n" % i for i in range(n))
+        use = " + ".join("f%d(%d)" % (i, i) for i in range(n))
+        defs = "".join("fn f%d(n: int)->int { n }\n" % i for i in range(n))
+        L.append(fw + "fn outer()->int {\n fn inner()->int { %s }\n inner()\n}\nlet r = outer();\n" % use + defs)
+        L.append(fw + "fn direct()->int { %s }\nlet r = direct();\n" % use + defs)
+        L.append(fw + "fn outer()->int {\n fn mid()->int {\n  fn inner()->int { %s }\n  inner()\n }\n mid()\n}\nlet r = outer();\n" % use + defs)
+    for body in ("a == a", "to_str(a)", "hash(a)", "cmp(a, a)", "a < a", "[a] == [a]", "(a, 1) == (a, 1)", "some(a) == some(a)", "a + a", "len(a)"):
+        L.append("struct P(x: int, y: str)\nstruct Q<T>(v: T, w: Sequence<T>)\nlet a = P(1, \"s\");\nlet r = %s;" % body)
+        L.append("struct P(x: int, y: str)\nstruct Q<T>(v: T, w: Sequence<T>)\nlet a = Q(P(1, \"s\"), []);\nlet r = %s;" % body)
+        L.append("union U(a: int, b: (int, str))\nlet a = U::b((1, \"s\"));\nlet r = %s;" % body)
+    return L
+
+
 def run(chk, tier, seed):
     rnd = random.Random(seed)
     n_soup, n_mut = (1500, 1200) if tier == "quick" else (20000, 15000)
@@ -85,7 +109,7 @@ def run(chk, tier, seed):
     base = [s["src"] for s in corpus.scripts()] + [b["src"] for b in corpus.book_blocks()]
     for _ in range(n_mut):
         texts.append(mutate(rnd, rnd.choice(base), base))
-    texts += literal_spellings()
+    texts += literal_spellings() + construct_spellings()
     texts += base
     for i in range(100 if tier == "quick" else 1000):
         texts.append(coregen.render(coregen.Gen(seed + i, max_depth=3, n_decls=5).program("x")))
